@@ -197,10 +197,12 @@ func (s *Service) refreshValidators(ctx context.Context) error {
 	ctx, span := otel.Tracer("attestantio.vouch.services.accountmanager.wallet").Start(ctx, "refreshValidators")
 	defer span.End()
 
+	s.mutex.RLock()
 	accountPubKeys := make([]phase0.BLSPubKey, 0, len(s.accounts))
 	for pubKey := range s.accounts {
 		accountPubKeys = append(accountPubKeys, pubKey)
 	}
+	s.mutex.RUnlock()
 	if err := s.validatorsManager.RefreshValidatorsFromBeaconNode(ctx, accountPubKeys); err != nil {
 		return errors.Wrap(err, "failed to refresh validators")
 	}
@@ -242,6 +244,10 @@ func (s *Service) accountsForEpochWithFilter(ctx context.Context, epoch phase0.E
 		apiv1.ValidatorStateWithdrawalPossible: 0,
 		apiv1.ValidatorStateWithdrawalDone:     0,
 	}
+
+	// The accounts are replaced as a whole by a refresh; work on one consistent set.
+	s.mutex.RLock()
+	defer s.mutex.RUnlock()
 
 	validatingAccounts := make(map[phase0.ValidatorIndex]e2wtypes.Account)
 	pubKeys := make([]phase0.BLSPubKey, 0, len(s.accounts))
@@ -297,6 +303,10 @@ func (s *Service) accountsForEpochByIndexWithFilter(ctx context.Context, epoch p
 		attribute.Int64("epoch", util.EpochToInt64(epoch)),
 	))
 	defer span.End()
+
+	// The accounts are replaced as a whole by a refresh; work on one consistent set.
+	s.mutex.RLock()
+	defer s.mutex.RUnlock()
 
 	validatingAccounts := make(map[phase0.ValidatorIndex]e2wtypes.Account)
 	pubKeys := make([]phase0.BLSPubKey, 0, len(s.accounts))
